@@ -66,6 +66,30 @@ def r1_left_context(ctx, rid):
                     and st.targets[0].id == recv and isinstance(st.value, ast.Subscript) and isinstance(st.value.value, ast.Name)
                     and st.value.value.id == recv and isinstance(st.value.slice, ast.Slice) and st.value.slice.lower is not None]
             if not cuts:
+                # searched in place with a moving offset: the character left of an occurrence at i is S[i-1] for EVERY i > 0; "there
+                # is no left neighbour" holds only for i == 0 - not for i == <offset>, where the left neighbour is the last character
+                # of the previous occurrence
+                bad_left = None
+                for e in ast.walk(loop):
+                    if isinstance(e, ast.IfExp) and isinstance(e.body, ast.Subscript) and isinstance(e.body.value, ast.Name) and e.body.value.id == recv \
+                            and isinstance(e.body.slice, ast.BinOp) and isinstance(e.body.slice.op, ast.Sub) and isinstance(e.body.slice.right, ast.Constant) \
+                            and e.body.slice.right.value == 1 and isinstance(e.body.slice.left, ast.Name) \
+                            and isinstance(e.orelse, ast.Constant) and e.orelse.value == "":
+                        i_name = e.body.slice.left.id
+                        t = e.test
+                        if isinstance(t, ast.Compare) and len(t.ops) == 1:
+                            l, op, r = t.left, t.ops[0], t.comparators[0]
+                            other = r if (isinstance(l, ast.Name) and l.id == i_name) else (l if isinstance(r, ast.Name) and r.id == i_name else None)
+                            if isinstance(other, ast.Name) and any(isinstance(st, ast.Assign) and any(isinstance(x, ast.Name) and x.id == other.id
+                                                                                                   for x in st.targets) for st in ast.walk(loop)):
+                                bad_left = (e, other.id)
+                if bad_left:
+                    e, off = bad_left
+                    ctx.violation(rid, f, e, f"`{ast.unparse(e)[:70]}`: the left neighbour of an occurrence is examined only when it lies behind the "
+                                             f"moving offset `{off}`; an occurrence that begins exactly where the previous one ended (`rr` for the term "
+                                             f"`r`) is treated as if it stood at the start of the string and the tail of a longer identifier is replaced",
+                                  label=f"search loop over `{recv}`")
+                    continue
                 ctx.ok(rid, f, loop, f"`{recv}` is searched in place (never cut to a suffix): position 0 really is the start of the string",
                        label=f"search loop over `{recv}`")
                 continue
@@ -162,9 +186,12 @@ def _dump_keys(ctx, f):
 def _loaded_dict_name(loader) -> str:
     """Name of the local that receives dict_from_yaml(path) in from_yaml."""
     for st in walk_shallow(loader.node):
-        if isinstance(st, ast.Assign) and len(st.targets) == 1 and isinstance(st.targets[0], ast.Name) and isinstance(st.value, ast.Call) \
-                and call_name(st.value) == "dict_from_yaml":
-            return st.targets[0].id
+        if isinstance(st, ast.Assign) and len(st.targets) == 1 and isinstance(st.targets[0], ast.Name) and isinstance(st.value, ast.Call):
+            v = st.value
+            while call_name(v) in ("deepcopy", "dict", "copy") and len(v.args) == 1 and isinstance(v.args[0], ast.Call):
+                v = v.args[0]          # a (deep) copy of the loaded dictionary is the loaded dictionary
+            if call_name(v) == "dict_from_yaml":
+                return st.targets[0].id
     raise AnalysisError("from_yaml no longer loads the template dictionary with dict_from_yaml")
 
 
@@ -543,6 +570,29 @@ def r11_loaded_definition_is_private(ctx, rid):
     rets = [r for r in walk_shallow(f.node) if isinstance(r, ast.Return) and r.value is not None]
     if not rets:
         raise AnalysisError(f"{rid}: dict_from_yaml has no return value")
+    # a cache handed in by the caller (`file_cache=` parameter) is retained by that caller: then the obligation moves to the place
+    # where the caller binds the result (from_yaml): it must be a deep copy
+    cache_params = [p for p in f0.params if "cache" in p.lower()]
+    if cache_params:
+        loader = ctx.repo.get_func(FT, "from_yaml")
+        name = _loaded_dict_name(loader)
+        for st in walk_shallow(loader.node):
+            if isinstance(st, ast.Assign) and len(st.targets) == 1 and isinstance(st.targets[0], ast.Name) and st.targets[0].id == name \
+                    and any(isinstance(c, ast.Call) and call_name(c) == "dict_from_yaml" for c in ast.walk(st.value)):
+                passes_cache = any(isinstance(c, ast.Call) and call_name(c) == "dict_from_yaml" and
+                                   (any(k.arg in cache_params for k in c.keywords) or len(c.args) > 1) for c in ast.walk(st.value))
+                deep = isinstance(st.value, ast.Call) and call_name(st.value) == "deepcopy"
+                if passes_cache and not deep:
+                    ctx.violation(rid, loader, st, f"from_yaml keeps the parsed file content in a cache (`{cache_params[0]}`) and binds "
+                                                   f"`{norm(st)[:70]}` without a deep copy: nested containers (equation edits, variables, per-node "
+                                                   f"overrides) are shared with the cache, and the consumers pop from / write into them, so a "
+                                                   f"second load of the same template sees an edited definition",
+                                  label="loaded definition shares nothing with retained file content")
+                    return
+                ctx.ok(rid, loader, st, "the loaded definition is deep-copied out of the retained file content" if passes_cache
+                       else "no file content is retained by the loader", label="loaded definition shares nothing with retained file content")
+                return
+        raise AnalysisError(f"{rid}: dict_from_yaml takes a cache parameter but from_yaml's use of it is not recognised")
     for r in rets:
         orig = an.origins(r.value)
 
